@@ -83,12 +83,22 @@ CollectOnModel ==
     LET names == SeqToSet(tgt) all == tgt = << "ALL" >> IN
     IF ~Covered(tree, names, all) THEN "SKIP"
     ELSE JudgeCoeffs(tree, names, all, CollectImpl(tree, names, all))
+PrintSys(par) ==
+    PrintT(ToJson([kind |-> "solve", eqs |-> sys, par |-> par,
+                   exprs |-> [i \in 1..Len(sys) |-> [lhs |-> InPar(Lhs(sys[i]), par), rhs |-> InPar(Rhs(sys[i]), par)]]]))
+RECURSIVE SysSumFrom(_)
+SysSumFrom(i) == IF i > Len(sys) THEN 0
+                 ELSE LET q == sys[i] IN 100 + i * (q.a1 + 2 * q.a2 + 3 * q.r1 + 5 * q.l + 7 * q.b + q.c) + SysSumFrom(i + 1)
+SysSum == SysSumFrom(1)
 Emit ==
     /\ (tgt # Unset /\ tgt # << "SYS" >>) =>
           /\ PrintT(ToJson([kind |-> "coeff", e |-> tree, tgt |-> tgt]))
           /\ (CollectOnModel \in {"OK", "SKIP"}
               \/ PrintT(ToJson([design |-> CollectOnModel, de |-> tree, dtgt |-> tgt])))
     /\ (tgt = << "SYS" >> /\ Len(sys) \in (IF Tier = "quick" THEN {2} ELSE {1, 2})) =>
-           PrintT(ToJson([kind |-> "solve", eqs |-> sys,
-                          exprs |-> [i \in 1..Len(sys) |-> [lhs |-> Lhs(sys[i]), rhs |-> Rhs(sys[i])]]]))
+           /\ PrintSys(pp)
+           \* where the parameter occurs, the system once more with another form of parameter
+           \* (rotating through ParForms with the system's coefficients)
+           /\ (\E i \in 1..Len(sys) : sys[i].l # 0 \/ sys[i].b # 0) =>
+                 PrintSys(ParForms[2 + (SysSum % (Len(ParForms) - 1))])
 =============================================================================
